@@ -84,6 +84,7 @@ type oblGroup struct {
 	Instances int
 	Failed    []*Obligation
 	Solvers   map[string]int
+	coverOK   bool
 }
 
 type checkResult struct {
@@ -343,6 +344,9 @@ func runProperty(w *World, res *checkResult, thorough bool, timeoutMs int) {
 		} else {
 			g.Failed = append(g.Failed, o)
 		}
+		if o.Cover && ok {
+			g.coverOK = true
+		}
 		if relevant(o, p) {
 			res.Relevant++
 		}
@@ -350,6 +354,9 @@ func runProperty(w *World, res *checkResult, thorough bool, timeoutMs int) {
 	sort.Strings(order)
 	for _, n := range order {
 		g := groups[n]
+		if g.Kind == "cover" && g.coverOK {
+			g.Failed = nil // a cover group holds when at least one instance is satisfiable
+		}
 		res.Groups = append(res.Groups, g)
 		if len(g.Failed) == 0 {
 			res.Discharged++
